@@ -181,6 +181,14 @@ impl Check for C03 {
             o.dup_keys = k % 5 == 0;
             emit(Case::new("doc", doc::gen_doc(&mut r, &o)));
         }
+        // nested documents of every depth 1..64 (pretty indentation, node-buffer parent links)
+        for d in 1..=64usize {
+            if g.mine(d as u64) {
+                for _ in 0..(if g.tier == Tier::Quick { 2 } else { 40 }) {
+                    emit(Case::new("nested", doc::nested(&mut r, d)));
+                }
+            }
+        }
         // token-sequence documents that are valid (enumerated small docs)
         let total = crate::gen::tokens::count(4);
         let mut buf = Vec::new();
